@@ -176,6 +176,9 @@ func (d *ioDriver) runPendingSafe() bool {
 		return false // covered by c03Finish
 	}
 	for _, op := range d.inflight() {
+		if op.obj.broken {
+			return false // its descriptor was closed underneath: it stays in flight until cancelled or closed
+		}
 		if !op.ready() {
 			return false
 		}
